@@ -16,9 +16,9 @@ def main():
 
         out = [fingerprint_log(case) for case in job["cases"]]
     elif mode == "c20":
-        from .props.c20 import child_continue
+        from .props.c20 import child_continue, child_produce
 
-        out = [child_continue(item) for item in job["items"]]
+        out = [child_produce(item) if item.get("produce") else child_continue(item) for item in job["items"]]
     else:
         raise SystemExit(f"unknown mode {mode}")
     json.dump({"hashseed": __import__("os").environ.get("PYTHONHASHSEED"), "out": out}, sys.stdout)
